@@ -184,7 +184,7 @@ def run(ctx):
         if m:
             for p in ps:
                 probe_of[p] = m.group(1)
-    n = 320 if ctx.quick() else 20000
+    n = 320 if ctx.quick() else 6000
     size = 3 if ctx.quick() else 4
     gen = [gen_program(rng, size) for _ in range(n)]
     progs = corpus + [g[0] for g in gen]
@@ -241,7 +241,7 @@ def run(ctx):
             break
 
     # (b) fragment: evalIR vs model VM vs real
-    nf = 480 if ctx.quick() else 30000
+    nf = 480 if ctx.quick() else 10000
     frags = [gen_frag_program(rng, 3) for _ in range(nf)]
     rcode, mout, _ = C.run_bin([C.driver_path("c01driver"), "frag"], "\n".join(f[0] for f in frags) + "\n", timeout=900)
     mlines = mout.splitlines()
